@@ -408,6 +408,8 @@ def misspelt(spec, acc):
 
     rnd = random.Random(spec["seed"])
     for i in range(spec["n"]):
+        if i == 0 or rnd.random() < 0.04:
+            big_diagram_with_absent_component(rnd, acc)
         mods = random_tree(rnd, 6, 11)
         imps = random_imports(rnd, mods, k_max=8)
         limit = rnd.choice([None, None, 1, 2])
@@ -535,6 +537,57 @@ def diagram_with_absent_component(rnd, evl, present, acc):
     os.unlink(path)
 
 
+def big_diagram_with_absent_component(rnd, acc):
+    """20-45 components whose drawn arrows are (mostly) not realised - so dozens of generated rules are violated - and
+    one component that does not exist, declared first / last / isolated / as the target or source of one arrow."""
+    from pytestarch import DiagramRule
+
+    from ..monitors_more import register_puml
+
+    n = rnd.randint(21, 45)
+    comps = [f"c{i:02d}" for i in range(n)]
+    mods = ["r"] + [f"r.{c}" for c in comps]
+    realised = rnd.choice([0.0, 0.0, 0.1, 0.5])
+    rel = [(comps[i], comps[(i + 1) % n]) for i in range(n)]
+    imps = [(f"r.{a}", f"r.{b}") for a, b in rel if rnd.random() < realised]
+    imps += [(f"r.{rnd.choice(comps)}", f"r.{rnd.choice(comps)}") for _ in range(rnd.randint(0, 6))]
+    imps = sorted({(a, b) for a, b in imps if a != b})
+    evl = build(mods, imps, check=False)
+    how = rnd.choice(["isolated-last", "isolated-first", "target-of-last", "source-last", "source-first", "target-of-first"])
+    bad = rnd.choice(["zz_missing", "c00x", "c" + str(n + 5)])
+    lines = [f"[{a}] --> [{b}]" for a, b in rel]
+    drawn = list(rel)
+    if how == "isolated-last":
+        lines.append(f"[{bad}]")
+    elif how == "isolated-first":
+        lines.insert(0, f"[{bad}]")
+    elif how == "target-of-last":
+        lines.append(f"[{comps[-1]}] --> [{bad}]")
+        drawn.append((comps[-1], bad))
+    elif how == "target-of-first":
+        lines.insert(0, f"[{comps[0]}] --> [{bad}]")
+        drawn.insert(0, (comps[0], bad))
+    elif how == "source-last":
+        lines.append(f"[{bad}] --> [{comps[0]}]")
+        drawn.append((bad, comps[0]))
+    else:
+        lines.insert(0, f"[{bad}] --> [{comps[0]}]")
+        drawn.insert(0, (bad, comps[0]))
+    d = os.path.join(trees.scratch_dir(), "puml13c")
+    os.makedirs(d, exist_ok=True)
+    path = os.path.join(d, f"big{acc.evaluations}.puml")
+    open(path, "w").write("@startuml\n" + "\n".join(lines) + "\n@enduml\n")
+    register_puml(path, comps + [bad], drawn)
+    mode = rnd.random() < 0.5
+    r = DiagramRule(should_only_rule=mode).from_file(Path(path)).with_base_module("r")
+    HUB.case = {"kind": "big_diagram_absent", "how": how, "n": n, "imports_realised": len(imps), "bad": bad, "should_only": mode}
+    run(r, evl)
+    acc.evaluated()
+    acc.count("big_diagrams_with_an_absent_component")
+    acc.hist("big_diagram_absent_component", how)
+    os.unlink(path)
+
+
 def layer_misspelt(rnd, evl, good, bad, acc):
     from pytestarch import LayeredArchitecture, LayerRule
 
@@ -596,7 +649,7 @@ def floors(acc, tier):
         for c in need:
             if acc.hists.get(hist, {}).get(c, 0) == 0:
                 why.append(f"{hist}: class {c} never observed")
-    for c, n in (("c13_rule_evaluations", 5000), ("c13_layer_evaluations", 500), ("c13_diagram_evaluations", 50), ("c13_entry_point_invalid_calls", 50), ("c13_unknown_module_evaluations", 300), ("c13_unmatched_regex_evaluations", 50), ("c13_calls_that_must_raise", 100), ("several_patterns_one_unmatched", 50), ("c13_diagram_unknown_component_evaluations", 50), ("diagram_rules_reconfigured_after_application", 50), ("batches_with_one_misspelt_member", 50), ("anything_batches_with_one_misspelt_member", 10), ("rule_histories_with_an_empty_batch", 50)):
+    for c, n in (("c13_rule_evaluations", 5000), ("c13_layer_evaluations", 500), ("c13_diagram_evaluations", 50), ("c13_entry_point_invalid_calls", 50), ("c13_unknown_module_evaluations", 300), ("c13_unmatched_regex_evaluations", 50), ("c13_calls_that_must_raise", 100), ("several_patterns_one_unmatched", 50), ("c13_diagram_unknown_component_evaluations", 50), ("diagram_rules_reconfigured_after_application", 50), ("batches_with_one_misspelt_member", 50), ("anything_batches_with_one_misspelt_member", 10), ("rule_histories_with_an_empty_batch", 50), ("big_diagrams_with_an_absent_component", 5)):
         if acc.counters[c] < n:
             why.append(f"{c}: only {acc.counters[c]}")
     acc.flags["exhaustive"] = all(acc.flags.get(f) for f in ("exhaustive_rule_sequences", "exhaustive_layer_sequences", "exhaustive_mutations", "exhaustive_entry_options"))
